@@ -95,6 +95,9 @@ const (
 	OpFToU    // fp -> unsigned bv (RTZ)
 	OpBitsToF // reinterpret bv as fp
 	OpFToBits // reinterpret fp as bv
+	OpFRound  // round to integral; a = 0 floor (RTN), 1 ceil (RTP), 2 trunc (RTZ), 3 round half away (RNA)
+	OpFAbs
+	OpFSqrt
 	OpUF
 )
 
@@ -984,6 +987,12 @@ func (t *Term) body() string {
 		return fmt.Sprintf("((_ fp.to_ubv %d) RTZ %s)", t.sort.W, a(0))
 	case OpBitsToF:
 		return fmt.Sprintf("(%s %s)", fpTo(t.sort), a(0))
+	case OpFRound:
+		return fmt.Sprintf("(fp.roundToIntegral %s %s)", [...]string{"RTN", "RTP", "RTZ", "RNA"}[t.a], a(0))
+	case OpFAbs:
+		return fmt.Sprintf("(fp.abs %s)", a(0))
+	case OpFSqrt:
+		return fmt.Sprintf("(fp.sqrt RNE %s)", a(0))
 	case OpUF:
 		var sb strings.Builder
 		sb.WriteString("(" + t.name)
@@ -1015,3 +1024,14 @@ func (t *Term) String() string {
 }
 
 func popcount(x uint64) int { return bits.OnesCount64(x) }
+
+// FUnary builds floor/ceil/trunc/round (mode 0..3), abs (4) and sqrt (5) on a symbolic float.
+func (c *Ctx) FUnary(mode int, x *Term) *Term {
+	switch mode {
+	case 4:
+		return c.mk(OpFAbs, x.sort, 0, 0, 0, "", x)
+	case 5:
+		return c.mk(OpFSqrt, x.sort, 0, 0, 0, "", x)
+	}
+	return c.mk(OpFRound, x.sort, 0, mode, 0, "", x)
+}
